@@ -396,4 +396,14 @@ theorem c14_pack_info_parser_follows_source (bs : Bytes) (h252 : bs.length = 252
     (Generated.packInfoParse bs).map' (fun r => tupleToInfo r.1) = PackInfo.decode bs :=
   gen_packInfoParse bs h252
 
+/-- **The head of an entry-store layout is decoded as the source decodes it**: `Layout.decode` is `layoutHead`
+    followed by the splitting of the properties (`layoutDecode_head`), and `layoutHead` is the statements of
+    `Layout::parse` up to that splitting, translated on every run (entry count, per-entry-CRC flag, entry size,
+    variant count, property list). The splitting itself (`splitVariants`) stays hand-modelled. -/
+theorem c14_layout_head_follows_source (bs : Bytes) :
+    Layout.decode bs = (layoutHead bs).bind layoutRest ∧
+    ((Generated.layoutParseHead bs).map' (fun r => (r.1.1, r.1.2.1, r.1.2.2.1, r.1.2.2.2.1, r.1.2.2.2.2))).Same
+      ((layoutHead bs).map' (fun h => (h.1, h.2.1, h.2.2.1, h.2.2.2.1, h.2.2.2.2.map RawProp.toSrcRaw))) :=
+  ⟨layoutDecode_head bs, gen_layoutParseHead bs⟩
+
 end Jubako
